@@ -262,9 +262,93 @@ def _noread_task(t):
     return {"evals": 3, "viols": viols, "outcomes": {"noread": 3}, "key": repr(("N",) + tuple(t))}
 
 
+def _accept_errors_task(t):
+    """The threaded worker's accept loop (the real ThreadWorker.run under the controlled scheduler): a connection that was
+    reset in the listen queue (ECONNABORTED) or taken by a sibling (EAGAIN) is not the worker's end - it serves the next client."""
+    from props import c13
+    (threads,) = t
+    cfg = {"threads": threads, "worker_connections": 3, "keepalive": 2}
+    viols = []
+    n = 0
+    for first in (("abort",), ("steal",)):
+        for second in (("abort",), ("steal",), None):
+            hist = [((first,), [])] + ([((second,), [])] if second else []) + [((("connect", 0),), []), ((("send", 0, "close"),), [])]
+            r = c13.run_history(cfg, hist, drain=[(("tick",),)] * 2)
+            n += 1
+            w = r["world"]
+            served = w.answered(0) if 0 in w.clients else 0
+            err = r["error"]
+            if err or served < 1:
+                viols.append(violation("worker-stopped-by-accept-error:gthread", "threads=%d history %r: %s; client 0, which connected afterwards and sent a request, got %d response(s)" % (
+                    threads, [list(h[0]) for h in hist], "run() ended: %s %s" % err if err else "no exception", served), {"accept_errors": [threads]}))
+                return {"evals": n, "viols": viols, "outcomes": {"accept-errors": n}, "key": repr(("A",) + tuple(t))}
+    return {"evals": n, "viols": viols, "outcomes": {"accept-errors": n}, "key": repr(("A",) + tuple(t))}
+
+
+class _Veto(Exception):
+    pass
+
+
+def _veto_hook(worker, req):
+    if req.path.startswith("/admin"):
+        raise _Veto("pre_request hook refuses %s" % req.path)
+
+
+def _veto_task(t):
+    """A request the configured pre_request hook refuses (it raises) is a rejected request like any other: the application
+    is not called for it, the client gets an error reply, the connection is closed."""
+    (wi,) = t
+    kind, kw = WORKERS[wi]
+    kw = dict(kw)
+    kw["pre_request"] = _veto_hook
+    app = App()
+    b = bench.Bench(kind, kw, app)
+    viols = []
+    n = 0
+    ok = b"GET /fine HTTP/1.1\r\nHost: h\r\n\r\n"
+    bad = [b"GET /admin/drop HTTP/1.1\r\nHost: h\r\n\r\n", b"POST /admin/users HTTP/1.1\r\nHost: h\r\nContent-Length: 3\r\n\r\nabc",
+           b"GET /admin HTTP/1.0\r\nConnection: keep-alive\r\n\r\n"]
+    try:
+        for stream, nfine in [(x, 0) for x in bad] + [(ok + x, 1) for x in bad] + [(x + ok, 0) for x in bad] + [(ok + ok + bad[0] + ok, 2)]:
+            for ending in ("halfclose", "close"):
+                app.calls = []
+                o = b.connection(stream, ending=ending, peer=PEER_TCP)
+                n += 1
+                v = None
+                refused = [c_ for c_ in app.calls if c_[1].startswith("/admin")]
+                fine = [c_ for c_ in app.calls if c_[1] == "/fine"]
+                if o.exc:
+                    v = ("exception-escaped-handle", o.exc)
+                elif refused:
+                    v = ("app-called-for-request-refused-by-hook", "the pre_request hook raised for %r, the application was called all the same" % (refused[0][:2],))
+                elif ending == "halfclose" and kind != "sync" and kw.get("keepalive") and len(fine) != nfine:
+                    v = ("app-call-sequence", "%d calls for /fine, the stream has %d before the refused request" % (len(fine), nfine))
+                elif len(fine) > nfine + 0 and kind == "sync":
+                    v = ("app-call-sequence", "%d calls for /fine" % len(fine))
+                elif ending == "halfclose":
+                    resps, problems = rfc_response.read_all(o.wire, [b"GET"] * 6, True)
+                    if not o.server_closed:
+                        v = ("connection-left-open", "the server end stayed open after the refused request")
+                    elif resps and (resps[-1].problems or not resps[-1].complete):
+                        v = ("malformed-reply", "last reply %s" % resps[-1].problems)
+                    elif len([r for r in resps if r.code == 200]) > len(fine):
+                        v = ("reply-without-app-call", "%d success replies, %d application calls" % (len([r for r in resps if r.code == 200]), len(fine)))
+                if v:
+                    viols.append(violation(v[0] + ":hook:" + kind, "worker=%s %r pre_request hook refuses /admin*, stream %r ending=%s: %s" % (kind, WORKERS[wi][1], stream[:80], ending, v[1]),
+                                           {"veto": [wi]}))
+                    return {"evals": n, "viols": viols, "outcomes": {"veto": n}, "key": repr(("V",) + tuple(t))}
+    finally:
+        b.close()
+    return {"evals": n, "viols": viols, "outcomes": {"veto": n}, "key": repr(("V",) + tuple(t))}
+
+
 def _dispatch(t):
     if t[0] == "N":
         return _noread_task(t[1:])
+    if t[0] == "A":
+        return _accept_errors_task(t[1:])
+    if t[0] == "V":
+        return _veto_task(t[1:])
     return _task(t)
 
 
@@ -302,6 +386,10 @@ def run(ctx):
     for wi in range(3):
         for size in (700000, 3000000):
             tasks.append(("N", wi, size))
+    for threads in (1, 2):
+        tasks.append(("A", threads))
+    for wi in range(len(WORKERS)):
+        tasks.append(("V", wi))
     random.Random(ctx.seed).shuffle(tasks)
     res = par.pmap(_dispatch, tasks)
     res.sort(key=lambda r: r["key"])
@@ -331,6 +419,12 @@ def run(ctx):
 
 
 def replay(case):
+    if "accept_errors" in case:
+        r = _accept_errors_task(tuple(case["accept_errors"]))
+        return r["viols"][0] if r["viols"] else None
+    if "veto" in case:
+        r = _veto_task(tuple(case["veto"]))
+        return r["viols"][0] if r["viols"] else None
     if "noread" in case:
         r = _noread_task(tuple(case["noread"]))
         return r["viols"][0] if r["viols"] else None
